@@ -174,6 +174,7 @@ func runC10SelfLoopEnd(c *Cfg) {
 	cases := selfLoopThenEndCases()
 	cases = append(cases, selfEmbeddedCases()...)     // a flow nested in itself unwinds level by level
 	cases = append(cases, startlessBranchCases()...) // an inner flow without start node that is never entered has no say
+	cases = append(cases, lateInnerEdgeCases()...)    // an inner flow that gets a node's first edge after it was wired into its parent
 	parallel(c, len(cases), func(i int) {
 		sc := cases[i]
 		outs, mrs := runScenario(sc)
@@ -181,7 +182,7 @@ func runC10SelfLoopEnd(c *Cfg) {
 		for k := range outs {
 			for _, f := range scen.Judge(sc, &mrs[k], &outs[k]) {
 				if f.Prop == "C10" || (f.Prop == "C03" && (f.Key == "path" || f.Key == "store-log")) {
-					r.Violate("C10", "C10:self-loop-then-end:"+f.Key, fmt.Sprintf("an inner flow whose last node self-loops and then ends the flow with another action: the parent routes on the action of the last visit: %s", f.Detail), ScenCase{"self-loop-then-end", sc})
+					r.Violate("C10", "C10:self-loop-then-end:"+f.Key, fmt.Sprintf("nested-flow arrangement (inner flow ending after a self-loop / embedded in itself / without a start node on an untaken branch / extended after it was wired in): the inner flow runs its own path to its end and the parent routes on the action of its last visit: %s", f.Detail), ScenCase{"self-loop-then-end", sc})
 				}
 			}
 		}
